@@ -63,9 +63,9 @@ func checkSign(t *engine.T, d *transcript, w *signWorld, msg []byte, r *big.Int,
 	// verification entry points
 	var v1, v2, v3 bool
 	if t.Guard("verify", func() {
-		v1 = sm9.VerifyASN1(w.pub, w.uid, w.hid, msg, sig)
-		v2 = w.pub.Verify(w.uid, w.hid, msg, sig)
-		v3 = sm9.Verify(w.pub, w.uid, w.hid, msg, hExp, sExp)
+		v1 = sm9.VerifyASN1(w.pub, w.uid, w.hid, after(w.uid, msg), sig)
+		v2 = w.pub.Verify(w.uid, w.hid, after(w.uid, msg), sig)
+		v3 = sm9.Verify(w.pub, w.uid, w.hid, after(w.uid, msg), hExp, sExp)
 	}) {
 		return sig, hExp, sExp
 	}
@@ -183,7 +183,7 @@ func checkEnc(t *engine.T, d *transcript, w *encWorld, b *wrapBase, m modeSpec, 
 	var got []byte
 	var err error
 	// raw
-	if !t.Guard("encrypt", func() { got, err = sm9.Encrypt(mkReader(), w.pub, w.uid, w.hid, msg, m.opts) }) {
+	if !t.Guard("encrypt", func() { got, err = sm9.Encrypt(mkReader(), w.pub, w.uid, w.hid, after(w.uid, msg), m.opts) }) {
 		if err != nil {
 			t.Fail("encrypt/error", "%s: Encrypt: %v", id, err)
 		} else {
@@ -192,7 +192,7 @@ func checkEnc(t *engine.T, d *transcript, w *encWorld, b *wrapBase, m modeSpec, 
 		}
 	}
 	if m.name == "xor" {
-		if !t.Guard("encrypt", func() { got, err = sm9.Encrypt(mkReader(), w.pub, w.uid, w.hid, msg, nil) }) {
+		if !t.Guard("encrypt", func() { got, err = sm9.Encrypt(mkReader(), w.pub, w.uid, w.hid, after(w.uid, msg), nil) }) {
 			if err != nil {
 				t.Fail("encrypt/error", "%s: Encrypt(opts=nil): %v", id, err)
 			} else {
@@ -202,7 +202,7 @@ func checkEnc(t *engine.T, d *transcript, w *encWorld, b *wrapBase, m modeSpec, 
 		}
 	}
 	// ASN.1
-	if !t.Guard("encrypt", func() { got, err = sm9.EncryptASN1(mkReader(), w.pub, w.uid, w.hid, msg, m.opts) }) {
+	if !t.Guard("encrypt", func() { got, err = sm9.EncryptASN1(mkReader(), w.pub, w.uid, w.hid, after(w.uid, msg), m.opts) }) {
 		if err != nil {
 			t.Fail("encrypt/error", "%s: EncryptASN1: %v", id, err)
 		} else {
@@ -280,8 +280,8 @@ func checkKX(t *engine.T, d *transcript, ke *big.Int, hid byte, uidA, uidB []byt
 	zlen := len(uidA) + len(uidB) + 128 + 3*384
 	id := fmt.Sprintf("%s: uidA %d bytes uidB %d bytes klen %d conf=%v", tag, len(uidA), len(uidB), klen, conf)
 
-	initiator := userA.NewKeyExchange(uidA, uidB, klen, conf)
-	responder := userB.NewKeyExchange(uidB, uidA, klen, conf)
+	initiator := userA.NewKeyExchange(uidA, after(uidA, uidB), klen, conf)
+	responder := userB.NewKeyExchange(uidB, after(uidB, uidA), klen, conf)
 	var ra, rb, sb, sa, keyA, keyB []byte
 	var err error
 	if t.Guard("kx/init", func() { ra, err = initiator.InitKeyExchange(reader(k32(rA)), hid) }) {
@@ -357,6 +357,33 @@ func runWrapProduct(c *engine.Ctx) {
 			if ul == 61 {
 				t.Sample(map[string]any{"scheme": "wrap/unwrap", "uid_len": ul, "key_lens": payloadLens, "r": r.Text(16)})
 			}
+		})
+	}
+}
+
+// runKdfAlignmentSweep: every uid length 0..130 (every KDF input residue mod 64, twice) x key lengths in every
+// output-block class of the multi-lane KDF (<4, 4..7, >=8 blocks, with and without a partial last block).
+func runKdfAlignmentSweep(c *engine.Ctx) {
+	ke, r := chain("sweep/ke"), chain("sweep/r")
+	klens := []int{97, 225, 260}
+	if !c.Quick() {
+		klens = []int{33, 97, 128, 129, 225, 256, 260, 520}
+	}
+	for lo := 0; lo <= 130; lo += 6 {
+		lo := lo
+		c.Case(fmt.Sprintf("wrap/kdf-sweep/uid=%d..%d", lo, lo+5), func(t *engine.T) {
+			d := newTranscript()
+			for ul := lo; ul < lo+6 && ul <= 130; ul++ {
+				w := newEncWorld(t, ke, uidOf(ul), 3)
+				if w == nil {
+					return
+				}
+				b := w.base(r)
+				for _, kl := range klens {
+					checkWrap(t, d, w, b, kl, "kdf-sweep")
+				}
+			}
+			d.finish(t)
 		})
 	}
 }
